@@ -168,6 +168,14 @@ class XMLWriter:
                 cur.append(ele)
             else:
                 if isinstance(val, list):
+                    # XML does not keep surrounding whitespace: names that are blank or
+                    # only differ in it cannot be saved without losing objects on load.
+                    names = [str(child.name).strip() for child in val if hasattr(child, "name")]
+                    if "" in names or len(set(names)) != len(names):
+                        raise ValueError("Cannot save as XML: names of the %s of '%s' are blank or not "
+                                         "unique after removing surrounding whitespace" %
+                                         (fmt.map(k), getattr(curr_el, "name", fmt.name)))
+
                     for curr_val in val:
                         if curr_val is None:
                             continue
